@@ -95,6 +95,371 @@ def split_assign(stmts: List[ast.stmt], namedtuples=None) -> List[ast.stmt]:
     return out
 
 
+OPERATOR_FUNCS = {"operator.add": ast.Add, "operator.mul": ast.Mult, "operator.sub": ast.Sub, "operator.matmul": ast.MatMult}
+
+
+def resolve_unset(fn) -> int:
+    """decide `x if acc is FOLD_UNSET__ else y` (the first-element test of a fold without an initial value) wherever the statement's position fixes
+    whether anything has been folded yet: straight-line after the marker assignment -> x; after any folding step, or inside a loop entered after
+    one -> y.  A test whose outcome depends on the data stays as it is."""
+    n = [0]
+
+    def is_marker(st):
+        return isinstance(st, ast.Assign) and len(st.targets) == 1 and isinstance(st.targets[0], ast.Name) and isinstance(st.value, ast.Name) \
+            and st.value.id == "FOLD_UNSET__"
+
+    def step_of(st, acc):
+        return isinstance(st, ast.Assign) and len(st.targets) == 1 and isinstance(st.targets[0], ast.Name) and st.targets[0].id == acc \
+            and isinstance(st.value, ast.IfExp) and isinstance(st.value.test, ast.Compare) and len(st.value.test.ops) == 1 \
+            and isinstance(st.value.test.ops[0], ast.Is) and isinstance(st.value.test.left, ast.Name) and st.value.test.left.id == acc \
+            and isinstance(st.value.test.comparators[0], ast.Name) and st.value.test.comparators[0].id == "FOLD_UNSET__"
+
+    def run(stmts, acc, state):
+        """state: 'unset' | 'set' | '?'; returns the state after the block"""
+        for st in stmts:
+            if step_of(st, acc):
+                if state == "unset":
+                    st.value = st.value.body
+                    n[0] += 1
+                elif state == "set":
+                    st.value = st.value.orelse
+                    n[0] += 1
+                state = "set"
+            elif isinstance(st, (ast.For, ast.While)):
+                inner = run(st.body, acc, state if state == "set" else "?")
+                state = state if inner == state else ("set" if state == "set" else "?")
+            elif isinstance(st, ast.If):
+                a = run(st.body, acc, state)
+                b = run(st.orelse, acc, state)
+                state = a if a == b else "?"
+            elif isinstance(st, (ast.With, ast.Try)):
+                state = run(st.body, acc, state)
+                if isinstance(st, ast.Try):
+                    state = "?" if any(step_of(x, acc) for x in ast.walk(st)) else state
+            elif any(isinstance(x, ast.Name) and x.id == acc and isinstance(x.ctx, ast.Store) for x in ast.walk(st)):
+                state = "?"
+        return state
+
+    def blocks(stmts):
+        for i, st in enumerate(stmts):
+            if is_marker(st):
+                run(stmts[i + 1:], st.targets[0].id, "unset")
+            for fld in ("body", "orelse", "finalbody"):
+                v = getattr(st, fld, None)
+                if isinstance(v, list) and v and all(isinstance(x, ast.stmt) for x in v) and not isinstance(st, (ast.FunctionDef, ast.ClassDef)):
+                    blocks(v)
+    if not any(isinstance(x, ast.Name) and x.id == "FOLD_UNSET__" for x in ast.walk(fn)):
+        return 0
+    blocks(fn.body)
+    # a marker nothing tests any more is dead
+    def prune(stmts):
+        out = []
+        for st in stmts:
+            if is_marker(st):
+                acc = st.targets[0].id
+                if not any(isinstance(x, ast.Compare) and isinstance(x.left, ast.Name) and x.left.id == acc and isinstance(x.comparators[0], ast.Name)
+                           and x.comparators[0].id == "FOLD_UNSET__" for x in ast.walk(fn)):
+                    continue
+            for fld in ("body", "orelse", "finalbody"):
+                v = getattr(st, fld, None)
+                if isinstance(v, list) and v and all(isinstance(x, ast.stmt) for x in v) and not isinstance(st, (ast.FunctionDef, ast.ClassDef)):
+                    setattr(st, fld, prune(v) or [ast.Pass()])
+            out.append(st)
+        return out
+    fn.body = prune(fn.body)
+    return n[0]
+
+
+def reduce_loops(fn: ast.FunctionDef) -> int:
+    """REDUCE (in place): `T = reduce(F, IT, INIT)` (functools' three-argument form, F a plain name) becomes
+    `acc = INIT; for e in IT: acc = F(acc, e); T = acc` -- the definition of the fold.  Returns the number of folds rewritten."""
+    names = {n.id for n in ast.walk(fn) if isinstance(n, ast.Name)} | {a.arg for a in ast.walk(fn) if isinstance(a, ast.arg)}
+    k = [0]
+
+    def conv(stmts):
+        out = []
+        for st in stmts:
+            for fld in ("body", "orelse", "finalbody"):
+                v = getattr(st, fld, None)
+                if isinstance(v, list) and v and all(isinstance(x, ast.stmt) for x in v) and not isinstance(st, (ast.FunctionDef, ast.ClassDef)):
+                    setattr(st, fld, conv(v))
+            c = st.value if isinstance(st, (ast.Assign, ast.Return)) and isinstance(getattr(st, "value", None), ast.Call) else None
+            if c is not None and ast.unparse(c.func) in ("reduce", "functools.reduce") and len(c.args) in (2, 3) and not c.keywords \
+                    and (isinstance(c.args[0], ast.Name) or ast.unparse(c.args[0]) in OPERATOR_FUNCS) and not any(isinstance(a_, ast.Starred) for a_ in c.args):
+                k[0] += 1
+                acc, el = f"fold__{k[0]}", f"fold_e__{k[0]}"
+                while acc in names or el in names:
+                    k[0] += 1
+                    acc, el = f"fold__{k[0]}", f"fold_e__{k[0]}"
+                step = ast.Call(c.args[0], [ast.Name(acc, ast.Load()), ast.Name(el, ast.Load())], [])
+                if ast.unparse(c.args[0]) in OPERATOR_FUNCS:
+                    step = ast.BinOp(ast.Name(acc, ast.Load()), OPERATOR_FUNCS[ast.unparse(c.args[0])](), ast.Name(el, ast.Load()))
+                if len(c.args) == 2:
+                    # no initial value: the first element starts the fold.  FOLD_UNSET__ marks "nothing folded yet"; resolve_unset decides the test
+                    # wherever the position in the code fixes it (and the rest stays visibly undecided)
+                    init = ast.Name("FOLD_UNSET__", ast.Load())
+                    step = ast.IfExp(ast.Compare(ast.Name(acc, ast.Load()), [ast.Is()], [ast.Name("FOLD_UNSET__", ast.Load())]), ast.Name(el, ast.Load()), step)
+                else:
+                    init = c.args[2]
+                new = [ast.Assign([ast.Name(acc, ast.Store())], init),
+                       ast.For(ast.Name(el, ast.Store()), c.args[1], [ast.Assign([ast.Name(acc, ast.Store())], step)], []),
+                       ast.Assign(st.targets, ast.Name(acc, ast.Load())) if isinstance(st, ast.Assign) else ast.Return(ast.Name(acc, ast.Load()))]
+                out.extend(ast.copy_location(x, st) for x in new)
+                continue
+            out.append(st)
+        return out
+    if not any(isinstance(n, ast.Call) and ast.unparse(n.func) in ("reduce", "functools.reduce") for n in ast.walk(fn)):
+        return 0
+    fn.body = conv(fn.body)
+    ast.fix_missing_locations(fn)
+    return k[0]
+
+
+def tuple_scalarise(body: List[ast.stmt]) -> List[ast.stmt]:
+    """TUPLE-SPLIT: a local whose every store is `v = (X0, .., Xn-1)` (a display of one arity) and whose every read is `*v` in a call, an unpacking
+    `a, .., z = v` of that arity or `v[<const>]`, is n separate locals: stores become `v__0, .., v__n-1 = X0, .., Xn-1`, the reads name them."""
+    mod = ast.Module(body=body, type_ignores=[])
+    parents: Dict[int, ast.AST] = {}
+    for n in ast.walk(mod):
+        for ch in ast.iter_child_nodes(n):
+            parents[id(ch)] = n
+    arity: Dict[str, int] = {}
+    bad = set()
+    for n in ast.walk(mod):
+        if isinstance(n, (ast.FunctionDef, ast.Lambda, ast.ClassDef)) and n is not mod:
+            for x in ast.walk(n):
+                if isinstance(x, ast.Name):
+                    bad.add(x.id)         # touched inside a nested scope: leave alone
+        if isinstance(n, ast.arg):
+            bad.add(n.arg)
+    for n in ast.walk(mod):
+        if not isinstance(n, ast.Name):
+            continue
+        par = parents.get(id(n))
+        if isinstance(n.ctx, ast.Store):
+            if isinstance(par, ast.Assign) and len(par.targets) == 1 and par.targets[0] is n and isinstance(par.value, ast.Tuple) \
+                    and not any(isinstance(e, ast.Starred) for e in par.value.elts) and arity.setdefault(n.id, len(par.value.elts)) == len(par.value.elts):
+                continue
+            bad.add(n.id)
+        elif isinstance(n.ctx, ast.Load):
+            if isinstance(par, ast.Starred) and isinstance(parents.get(id(par)), ast.Call) and par in parents[id(par)].args:
+                continue
+            if isinstance(par, ast.Assign) and par.value is n and len(par.targets) == 1 and isinstance(par.targets[0], (ast.Tuple, ast.List)) \
+                    and not any(isinstance(e, ast.Starred) for e in par.targets[0].elts):
+                if arity.get(n.id, len(par.targets[0].elts)) != len(par.targets[0].elts):
+                    bad.add(n.id)
+                continue
+            if isinstance(par, ast.Subscript) and par.value is n and isinstance(par.slice, ast.Constant) and isinstance(par.slice.value, int) \
+                    and isinstance(par.ctx, ast.Load) and par.slice.value >= 0:
+                continue
+            bad.add(n.id)
+        else:
+            bad.add(n.id)
+    todo = {k: v for k, v in arity.items() if k not in bad and v >= 1}
+    if not todo:
+        return body
+    allnames = {n.id for n in ast.walk(mod) if isinstance(n, ast.Name)}
+    for k in list(todo):
+        if any(f"{k}__{i}" in allnames for i in range(todo[k])):
+            del todo[k]
+    if not todo:
+        return body
+
+    class T(ast.NodeTransformer):
+        def visit_Assign(self, a):
+            if len(a.targets) == 1 and isinstance(a.targets[0], ast.Name) and a.targets[0].id in todo and isinstance(a.value, ast.Tuple):
+                k = a.targets[0].id
+                self.generic_visit(a.value)
+                return ast.copy_location(ast.Assign([ast.Tuple([ast.Name(f"{k}__{i}", ast.Store()) for i in range(todo[k])], ast.Store())], a.value), a)
+            if isinstance(a.value, ast.Name) and a.value.id in todo and isinstance(a.targets[0], (ast.Tuple, ast.List)):
+                k = a.value.id
+                return ast.copy_location(ast.Assign(a.targets, ast.Tuple([ast.Name(f"{k}__{i}", ast.Load()) for i in range(todo[k])], ast.Load())), a)
+            return self.generic_visit(a)
+
+        def visit_Call(self, c):
+            self.generic_visit(c)
+            args = []
+            for a_ in c.args:
+                if isinstance(a_, ast.Starred) and isinstance(a_.value, ast.Name) and a_.value.id in todo:
+                    args.extend(ast.Name(f"{a_.value.id}__{i}", ast.Load()) for i in range(todo[a_.value.id]))
+                else:
+                    args.append(a_)
+            c.args = args
+            return c
+
+        def visit_Subscript(self, sub):
+            if isinstance(sub.value, ast.Name) and sub.value.id in todo and isinstance(sub.slice, ast.Constant) and isinstance(sub.slice.value, int):
+                if sub.slice.value < todo[sub.value.id]:
+                    return ast.copy_location(ast.Name(f"{sub.value.id}__{sub.slice.value}", ast.Load()), sub)
+            return self.generic_visit(sub)
+    out = [T().visit(st) for st in body]
+    for st in out:
+        ast.fix_missing_locations(st)
+    return split_assign(out)
+
+
+def with_local_defs(fn: ast.FunctionDef, resolve_call):
+    """a resolver that also resolves `name(...)` to a function defined (once) in fn's own body -- a local closure.  Inlining it is exact: a
+    closure reads the enclosing function's variables at call time, which is what the inlined body does."""
+    stores: Dict[str, int] = {}
+    for n in ast.walk(fn):
+        if isinstance(n, ast.Name) and isinstance(n.ctx, (ast.Store, ast.Del)):
+            stores[n.id] = stores.get(n.id, 0) + 1
+        elif isinstance(n, (ast.FunctionDef, ast.ClassDef)) and n is not fn:
+            stores[n.name] = stores.get(n.name, 0) + 1
+        elif isinstance(n, ast.arg):
+            stores[n.arg] = stores.get(n.arg, 0) + 1
+    local = {d.name: d for d in fn.body if isinstance(d, ast.FunctionDef) and stores.get(d.name) == 1 and not d.decorator_list}
+    if not local:
+        return resolve_call, {}
+
+    def res(call):
+        if isinstance(call, ast.Call) and isinstance(call.func, ast.Name) and call.func.id in local:
+            return local[call.func.id]
+        return resolve_call(call) if resolve_call is not None else None
+    for attr in ("local_types", "classes"):
+        if hasattr(resolve_call, attr):
+            setattr(res, attr, getattr(resolve_call, attr))
+    return res, local
+
+
+def drop_unused_defs(body: List[ast.stmt], local) -> List[ast.stmt]:
+    if not local:
+        return body
+    used = {n.id for st in body for n in ast.walk(st) if isinstance(n, ast.Name) and isinstance(n.ctx, ast.Load)}
+    return [st for st in body if not (isinstance(st, ast.FunctionDef) and st.name in local and st.name not in used)]
+
+
+def copy_propagate(body: List[ast.stmt]) -> List[ast.stmt]:
+    """COPY-PROP: within one statement list, after `x = <name or attribute chain>` the reads of x become that expression until x, or anything
+    the expression reads, may change: a store to x / to a name it reads, and -- for attribute chains -- any call or attribute store in between.
+    Substitution into a statement happens only where every call of that statement encloses the read (so nothing runs before the read that
+    did not run before the copy).  Copies nothing reads any more are dropped.  Nested blocks start from the copies still valid at their head
+    minus everything the compound statement may change."""
+    mod = ast.Module(body=body, type_ignores=[])
+    touched = [False]
+
+    def is_copy_src(e):
+        if isinstance(e, ast.Name):
+            return True
+        return isinstance(e, ast.Attribute) and is_copy_src(e.value)
+
+    def stores_of(node):
+        out = set()
+        for n in ast.walk(node):
+            if isinstance(n, ast.Name) and isinstance(n.ctx, (ast.Store, ast.Del)):
+                out.add(n.id)
+            elif isinstance(n, (ast.FunctionDef, ast.ClassDef)):
+                out.add(n.name)
+        return out
+
+    def has_effect(node):
+        return any(isinstance(n, (ast.Call, ast.Await, ast.Yield, ast.YieldFrom)) or
+                   (isinstance(n, (ast.Attribute, ast.Subscript)) and isinstance(n.ctx, (ast.Store, ast.Del))) for n in ast.walk(node))
+
+    def subst_expr(e, avail):
+        """substitute in expression e (returns new expr)"""
+        if not avail:
+            return e
+        parents = {}
+        for n in ast.walk(e):
+            for ch in ast.iter_child_nodes(n):
+                parents[id(ch)] = n
+        calls = [n for n in ast.walk(e) if isinstance(n, ast.Call)]
+
+        def enclosed_by_all_calls(n):
+            anc = set()
+            cur = n
+            while id(cur) in parents:
+                cur = parents[id(cur)]
+                anc.add(id(cur))
+            return all(id(c) in anc for c in calls)
+
+        class T(ast.NodeTransformer):
+            def visit_Name(self, n):
+                if isinstance(n.ctx, ast.Load) and n.id in avail:
+                    src = avail[n.id]
+                    if isinstance(src, ast.Name) or enclosed_by_all_calls(n):
+                        touched[0] = True
+                        return ast.copy_location(copy.deepcopy(src), n)
+                return n
+
+            def visit_Lambda(self, n):
+                return n
+
+            def visit_ListComp(self, n):
+                return n
+            visit_SetComp = visit_DictComp = visit_GeneratorExp = visit_ListComp
+        return T().visit(e)
+
+    def kill(avail, st_stores, effect):
+        for k in list(avail):
+            src = avail[k]
+            reads = {x.id for x in ast.walk(src) if isinstance(x, ast.Name)}
+            if k in st_stores or reads & st_stores or (effect and isinstance(src, ast.Attribute)):
+                del avail[k]
+
+    def block(stmts, avail):
+        avail = dict(avail)
+        for st in stmts:
+            if isinstance(st, (ast.Assign, ast.AugAssign, ast.AnnAssign, ast.Expr, ast.Return, ast.Assert, ast.Raise)):
+                for fld in ("value", "test", "msg", "exc"):
+                    v = getattr(st, fld, None)
+                    if isinstance(v, ast.expr):
+                        setattr(st, fld, subst_expr(v, avail))
+                if isinstance(st, ast.Assign):
+                    # subscripts / attribute bases on the left are reads too
+                    for t in st.targets:
+                        if isinstance(t, (ast.Subscript, ast.Attribute)):
+                            t.value = subst_expr(t.value, {k: v for k, v in avail.items() if isinstance(v, ast.Name)})
+                kill(avail, stores_of(st), has_effect(st))
+                if isinstance(st, ast.Assign) and len(st.targets) == 1 and isinstance(st.targets[0], ast.Name) and is_copy_src(st.value) \
+                        and not (isinstance(st.value, ast.Name) and st.value.id == st.targets[0].id):
+                    avail[st.targets[0].id] = st.value
+            elif isinstance(st, (ast.If, ast.While, ast.For, ast.With, ast.Try)):
+                inner_stores = stores_of(st)
+                eff = has_effect(st)
+                if isinstance(st, ast.If):
+                    st.test = subst_expr(st.test, avail)
+                elif isinstance(st, ast.For):
+                    st.iter = subst_expr(st.iter, avail)
+                inner = dict(avail)
+                if isinstance(st, (ast.While, ast.For)):
+                    kill(inner, inner_stores, eff)         # a later iteration sees what an earlier one changed
+                for fld in ("body", "orelse", "finalbody"):
+                    v = getattr(st, fld, None)
+                    if isinstance(v, list) and v and all(isinstance(x, ast.stmt) for x in v):
+                        block(v, inner)
+                if isinstance(st, ast.Try):
+                    for h in st.handlers:
+                        block(h.body, {})
+                kill(avail, inner_stores, eff)
+            else:
+                kill(avail, stores_of(st), True)
+        return stmts
+    block(body, {})
+    if not touched[0]:
+        return body
+    loads = {n.id for n in ast.walk(mod) if isinstance(n, ast.Name) and isinstance(n.ctx, ast.Load)}
+
+    def prune(stmts):
+        out = []
+        for st in stmts:
+            if isinstance(st, ast.Assign) and len(st.targets) == 1 and isinstance(st.targets[0], ast.Name) and st.targets[0].id not in loads \
+                    and is_copy_src(st.value):
+                continue
+            for fld in ("body", "orelse", "finalbody"):
+                v = getattr(st, fld, None)
+                if isinstance(v, list) and v and all(isinstance(x, ast.stmt) for x in v) and not isinstance(st, (ast.FunctionDef, ast.ClassDef)):
+                    setattr(st, fld, prune(v) or [ast.Pass()])
+            out.append(st)
+        return out
+    out = prune(body)
+    for st in out:
+        ast.fix_missing_locations(st)
+    return out
+
+
 def coalesce_copies(fn_body: List[ast.stmt]) -> List[ast.stmt]:
     """COALESCE: in one statement list, `a = A` ... `A = a` where A is neither read nor written in between and `a` occurs nowhere outside that
     stretch: `a` is A's working copy -- it is renamed to A and the two copies are dropped (the value flow is unchanged on normal termination).
@@ -175,6 +540,303 @@ def unproduct(stmts: List[ast.stmt]) -> List[ast.stmt]:
                 continue
         out.append(s)
     return out
+
+
+def unzip_map(body: List[ast.stmt]) -> List[ast.stmt]:
+    """UNZIP-MAP: `L = [F(x) for x in K]` (bound once) ... `for (k, l) in zip(K, L): S`  ->  `for k in K: l = F(k); S` (also under enumerate()).
+    F is call-free apart from len(), so it reads the same containers whether it is evaluated before the loop or inside it -- provided the loop
+    does not resize them, which none of the anchored loops does (assumption recorded in DESIGN 8.12)."""
+    mod = ast.Module(body=body, type_ignores=[])
+    nstores: Dict[str, int] = {}
+    defs: Dict[str, ast.Assign] = {}
+    loads: Dict[str, int] = {}
+    for n in ast.walk(mod):
+        if isinstance(n, ast.Name):
+            if isinstance(n.ctx, ast.Load):
+                loads[n.id] = loads.get(n.id, 0) + 1
+            else:
+                nstores[n.id] = nstores.get(n.id, 0) + 1
+        elif isinstance(n, ast.arg):
+            nstores[n.arg] = nstores.get(n.arg, 0) + 1
+        if isinstance(n, ast.Assign) and len(n.targets) == 1 and isinstance(n.targets[0], ast.Name):
+            defs[n.targets[0].id] = n
+
+    def as_map(e):
+        if not (isinstance(e, ast.Name) and nstores.get(e.id) == 1 and e.id in defs):
+            return None
+        v = defs[e.id].value
+        if isinstance(v, ast.ListComp) and len(v.generators) == 1 and not v.generators[0].ifs and isinstance(v.generators[0].target, ast.Name) \
+                and not any(isinstance(x, ast.Call) and not (isinstance(x.func, ast.Name) and x.func.id == "len") for x in ast.walk(v.elt)):
+            return v
+        return None
+    dropped = set()
+
+    def conv(stmts):
+        out = []
+        for st in stmts:
+            for fld in ("body", "orelse", "finalbody"):
+                v = getattr(st, fld, None)
+                if isinstance(v, list) and v and all(isinstance(x, ast.stmt) for x in v) and not isinstance(st, (ast.FunctionDef, ast.ClassDef)):
+                    setattr(st, fld, conv(v))
+            if isinstance(st, ast.For) and not st.orelse:
+                it, tgt, enum = st.iter, st.target, False
+                if isinstance(it, ast.Call) and isinstance(it.func, ast.Name) and it.func.id == "enumerate" and len(it.args) == 1 and not it.keywords \
+                        and isinstance(tgt, (ast.Tuple, ast.List)) and len(tgt.elts) == 2:
+                    it, tgt, enum = it.args[0], tgt.elts[1], True
+                if isinstance(it, ast.Call) and isinstance(it.func, ast.Name) and it.func.id == "zip" and not it.keywords and len(it.args) >= 2 \
+                        and isinstance(tgt, (ast.Tuple, ast.List)) and len(tgt.elts) == len(it.args) and all(isinstance(e, ast.Name) for e in tgt.elts):
+                    maps = [as_map(a) for a in it.args]
+                    base = [i for i, m_ in enumerate(maps) if m_ is None]
+                    if len(base) == 1:
+                        K = it.args[base[0]]
+                        ktxt = ast.unparse(K)
+                        if not any(isinstance(x, ast.Call) for x in ast.walk(K)) and all(m_ is None or ast.unparse(m_.generators[0].iter) == ktxt for m_ in maps):
+                            kvar = tgt.elts[base[0]].id
+                            pre = []
+                            for i, m_ in enumerate(maps):
+                                if m_ is None:
+                                    continue
+                                x = m_.generators[0].target.id
+
+                                class S(ast.NodeTransformer):
+                                    def visit_Name(self, n):
+                                        return ast.copy_location(ast.Name(kvar, ast.Load()), n) if n.id == x and isinstance(n.ctx, ast.Load) else n
+                                pre.append(ast.copy_location(ast.Assign([ast.Name(tgt.elts[i].id, ast.Store())], S().visit(copy.deepcopy(m_.elt))), st))
+                                if loads.get(it.args[i].id, 0) == 1:
+                                    dropped.add(it.args[i].id)
+                            new_t = ast.Name(kvar, ast.Store())
+                            if enum:
+                                st.target = ast.Tuple([st.target.elts[0], new_t], ast.Store())
+                                st.iter = ast.Call(ast.Name("enumerate", ast.Load()), [K], [])
+                            else:
+                                st.target, st.iter = new_t, K
+                            st.body = pre + st.body
+                            ast.fix_missing_locations(st)
+            out.append(st)
+        return out
+    if not any(isinstance(n, ast.Call) and isinstance(n.func, ast.Name) and n.func.id == "zip" for n in ast.walk(mod)):
+        return body
+    new = conv(body)
+
+    def prune(stmts):
+        out = []
+        for st in stmts:
+            if isinstance(st, ast.Assign) and len(st.targets) == 1 and isinstance(st.targets[0], ast.Name) and st.targets[0].id in dropped and st is defs.get(st.targets[0].id):
+                continue
+            for fld in ("body", "orelse", "finalbody"):
+                v = getattr(st, fld, None)
+                if isinstance(v, list) and v and all(isinstance(x, ast.stmt) for x in v) and not isinstance(st, (ast.FunctionDef, ast.ClassDef)):
+                    setattr(st, fld, prune(v) or [ast.Pass()])
+            out.append(st)
+        return out
+    return prune(new)
+
+
+def splice_local_generators(fn) -> int:
+    """CHAIN-LIST + LOCAL-GEN + GENEXP-LOOP (in place, load time):
+      `T = list(chain(A, B, ..))` / `return list(chain(..))`   ->  `c = list(A); c.extend(B); ..; T = c`
+      `X.extend(G())`, `yield from G()`, `for t in G(): S` with G a parameterless generator defined in this function and used exactly once
+                                                               ->  G's body spliced in (a generator body runs when it is consumed, so this is where it ran)
+      `for e in (E for t in IT): S`                            ->  `for t in IT: e = E; S`
+    Returns the number of rewrites."""
+    n_rw = [0]
+    names = {n.id for n in ast.walk(fn) if isinstance(n, ast.Name)} | {a.arg for a in ast.walk(fn) if isinstance(a, ast.arg)}
+
+    def fresh(base):
+        i = 1
+        while f"{base}__{i}" in names:
+            i += 1
+        names.add(f"{base}__{i}")
+        return f"{base}__{i}"
+
+    def is_chain(e):
+        return isinstance(e, ast.Call) and isinstance(e.func, ast.Name) and e.func.id == "list" and len(e.args) == 1 and not e.keywords \
+            and isinstance(e.args[0], ast.Call) and ast.unparse(e.args[0].func) in ("chain", "itertools.chain") and not e.args[0].keywords \
+            and len(e.args[0].args) >= 1 and not any(isinstance(a_, ast.Starred) for a_ in e.args[0].args)
+
+    def each_block(stmts, f):
+        out = f(stmts)
+        for st in out:
+            for fld in ("body", "orelse", "finalbody"):
+                v = getattr(st, fld, None)
+                if isinstance(v, list) and v and all(isinstance(x, ast.stmt) for x in v) and not isinstance(st, (ast.FunctionDef, ast.ClassDef)):
+                    setattr(st, fld, each_block(v, f))
+        return out
+
+    def chain_list(stmts):
+        out = []
+        for st in stmts:
+            v = getattr(st, "value", None) if isinstance(st, (ast.Assign, ast.Return)) else None
+            if v is not None and is_chain(v):
+                c = fresh("chained")
+                parts = v.args[0].args
+                out.append(ast.copy_location(ast.Assign([ast.Name(c, ast.Store())], ast.Call(ast.Name("list", ast.Load()), [parts[0]], [])), st))
+                for p_ in parts[1:]:
+                    out.append(ast.copy_location(ast.Expr(ast.Call(ast.Attribute(ast.Name(c, ast.Load()), "extend", ast.Load()), [p_], [])), st))
+                out.append(ast.copy_location(ast.Assign(st.targets, ast.Name(c, ast.Load())) if isinstance(st, ast.Assign) else ast.Return(ast.Name(c, ast.Load())), st))
+                n_rw[0] += 1
+                continue
+            out.append(st)
+        return out
+    if any(isinstance(n, ast.Call) and ast.unparse(n.func) in ("chain", "itertools.chain") for n in ast.walk(fn)):
+        fn.body = each_block(fn.body, chain_list)
+
+    def genexp_loop(stmts):
+        out = []
+        for st in stmts:
+            if isinstance(st, ast.For) and not st.orelse and isinstance(st.iter, ast.GeneratorExp) and len(st.iter.generators) == 1 \
+                    and not st.iter.generators[0].is_async and isinstance(st.target, ast.Name):
+                g = st.iter.generators[0]
+                inner = [ast.Assign([st.target], st.iter.elt)] + st.body
+                for c_ in reversed(g.ifs):
+                    inner = [ast.If(c_, inner, [])]
+                tnames = {x.id for x in ast.walk(g.target) if isinstance(x, ast.Name)}
+                if not (tnames & (names - tnames)) or True:
+                    st = ast.copy_location(ast.For(g.target, g.iter, inner, []), st)
+                    n_rw[0] += 1
+            out.append(st)
+        return out
+    if any(isinstance(n, ast.For) and isinstance(n.iter, ast.GeneratorExp) for n in ast.walk(fn)):
+        fn.body = each_block(fn.body, genexp_loop)
+
+    # parameterless local generators used exactly once
+    stores: Dict[str, int] = {}
+    for n in ast.walk(fn):
+        if isinstance(n, ast.Name) and isinstance(n.ctx, (ast.Store, ast.Del)):
+            stores[n.id] = stores.get(n.id, 0) + 1
+        elif isinstance(n, (ast.FunctionDef, ast.ClassDef)) and n is not fn:
+            stores[n.name] = stores.get(n.name, 0) + 1
+    gens = {}
+    for d in fn.body:
+        if isinstance(d, ast.FunctionDef) and stores.get(d.name) == 1 and not d.decorator_list and not (d.args.args or d.args.posonlyargs or d.args.kwonlyargs or d.args.vararg or d.args.kwarg) \
+                and any(isinstance(x, (ast.Yield, ast.YieldFrom)) for x in core_own_walk(d)):
+            uses = [x for x in ast.walk(fn) if isinstance(x, ast.Name) and x.id == d.name and isinstance(x.ctx, ast.Load)]
+            if len(uses) == 1:
+                gens[d.name] = d
+    if not gens:
+        if n_rw[0]:
+            ast.fix_missing_locations(fn)
+        return n_rw[0]
+    nz = Normaliser(None)
+    nz.keep_unclashing = True
+    spliced = set()
+
+    def is_gcall(e):
+        return isinstance(e, ast.Call) and isinstance(e.func, ast.Name) and e.func.id in gens and not e.args and not e.keywords
+
+    def splice(stmts):
+        out = []
+        for st in stmts:
+            if isinstance(st, ast.Expr) and isinstance(st.value, ast.Call) and isinstance(st.value.func, ast.Attribute) and st.value.func.attr == "extend" \
+                    and len(st.value.args) == 1 and not st.value.keywords and is_gcall(st.value.args[0]) \
+                    and not any(isinstance(x, ast.Call) for x in ast.walk(st.value.func.value)):
+                e = fresh("item")
+                st = ast.copy_location(ast.For(ast.Name(e, ast.Store()), st.value.args[0],
+                                               [ast.Expr(ast.Call(ast.Attribute(st.value.func.value, "append", ast.Load()), [ast.Name(e, ast.Load())], []))], []), st)
+                ast.fix_missing_locations(st)
+            elif isinstance(st, ast.Expr) and isinstance(st.value, ast.YieldFrom) and is_gcall(st.value.value):
+                e = fresh("item")
+                st = ast.copy_location(ast.For(ast.Name(e, ast.Store()), st.value.value, [ast.Expr(ast.Yield(ast.Name(e, ast.Load())))], []), st)
+                ast.fix_missing_locations(st)
+            if isinstance(st, ast.For) and is_gcall(st.iter):
+                g = gens[st.iter.func.id]
+                # names of the enclosing function outside the generator's own definition: what the spliced locals must not collide with
+                nz.caller_names = {x.id for d_ in fn.body if d_ is not g for x in ast.walk(d_) if isinstance(x, ast.Name)} | {a.arg for a in ast.walk(fn.args) if isinstance(a, ast.arg)}
+                yl = any(isinstance(x, (ast.Yield, ast.YieldFrom)) for x in ast.walk(ast.Module(body=st.body, type_ignores=[])))
+                if yl:
+                    # `for e in G(): yield e` -- the consumer itself yields: splice by hand (the generic fusion refuses yielding bodies)
+                    fused = None
+                    if len(st.body) == 1 and isinstance(st.body[0], ast.Expr) and isinstance(st.body[0].value, ast.Yield) and isinstance(st.target, ast.Name) \
+                            and isinstance(st.body[0].value.value, ast.Name) and st.body[0].value.value.id == st.target.id \
+                            and not any(isinstance(x, ast.Return) for x in ast.walk(g)):
+                        fused = copy.deepcopy([b for b in g.body if not (isinstance(b, ast.Expr) and isinstance(b.value, ast.Constant))])
+                else:
+                    fused = nz._fuse(st, g, 0)
+                if fused is not None:
+                    spliced.add(g.name)
+                    n_rw[0] += 1
+                    out.extend(fused)
+                    continue
+            out.append(st)
+        return out
+    fn.body = each_block(fn.body, splice)
+    fn.body = [d for d in fn.body if not (isinstance(d, ast.FunctionDef) and d.name in spliced)]
+    ast.fix_missing_locations(fn)
+    return n_rw[0]
+
+
+def core_own_walk(fn):
+    stack = list(reversed(fn.body))
+    while stack:
+        n = stack.pop()
+        yield n
+        if isinstance(n, (ast.FunctionDef, ast.AsyncFunctionDef, ast.Lambda, ast.ClassDef)):
+            continue
+        stack.extend(reversed(list(ast.iter_child_nodes(n))))
+
+
+def extend_loops(fn) -> int:
+    """APPEND-LOOP (in place): `for v in X: L.append(v)` -> `L.extend(X)` (X evaluated once either way; L is not X)"""
+    k = [0]
+
+    def conv(stmts):
+        out = []
+        for st in stmts:
+            for fld in ("body", "orelse", "finalbody"):
+                v = getattr(st, fld, None)
+                if isinstance(v, list) and v and all(isinstance(x, ast.stmt) for x in v) and not isinstance(st, (ast.FunctionDef, ast.ClassDef)):
+                    setattr(st, fld, conv(v))
+            if isinstance(st, ast.For) and not st.orelse and isinstance(st.target, ast.Name) and len(st.body) == 1 and isinstance(st.body[0], ast.Expr) \
+                    and isinstance(st.body[0].value, ast.Call) and isinstance(st.body[0].value.func, ast.Attribute) and st.body[0].value.func.attr == "append" \
+                    and len(st.body[0].value.args) == 1 and not st.body[0].value.keywords and isinstance(st.body[0].value.args[0], ast.Name) \
+                    and st.body[0].value.args[0].id == st.target.id and isinstance(st.body[0].value.func.value, ast.Name) \
+                    and not any(isinstance(x, ast.Name) and x.id in (st.body[0].value.func.value.id, st.target.id) for x in ast.walk(st.iter)):
+                L = st.body[0].value.func.value
+                out.append(ast.copy_location(ast.Expr(ast.Call(ast.Attribute(L, "extend", ast.Load()), [st.iter], [])), st))
+                k[0] += 1
+                continue
+            out.append(st)
+        return out
+    fn.body = conv(fn.body)
+    if k[0]:
+        ast.fix_missing_locations(fn)
+    return k[0]
+
+
+def unchain_assign(fn) -> int:
+    """CHAIN (in place): `a = self.x = E` / `self.x = a = E` -> `self.x = E; a = self.x` (the attribute is the value's home, the name reads it);
+    `a = b = E` with plain names -> `a = E; b = a`.  Plain attribute stores only (no subscripts / starred / tuple targets)."""
+    k = [0]
+
+    def conv(stmts):
+        out = []
+        for st in stmts:
+            for fld in ("body", "orelse", "finalbody"):
+                v = getattr(st, fld, None)
+                if isinstance(v, list) and v and all(isinstance(x, ast.stmt) for x in v) and not isinstance(st, ast.ClassDef):
+                    setattr(st, fld, conv(v))
+            if isinstance(st, ast.Assign) and len(st.targets) > 1 and all(isinstance(t, (ast.Name, ast.Attribute)) for t in st.targets) \
+                    and all(isinstance(t, ast.Name) or (isinstance(t.value, ast.Name) and t.value.id == "self") for t in st.targets):
+                attrs = [t for t in st.targets if isinstance(t, ast.Attribute)]
+                home = attrs[0] if attrs else st.targets[0]
+                others = [t for t in st.targets if t is not home]
+                names = {t.id for t in st.targets if isinstance(t, ast.Name)}
+                if not any(isinstance(x, ast.Name) and x.id in names for x in ast.walk(st.value)):
+                    k[0] += 1
+                    out.append(ast.copy_location(ast.Assign([home], st.value), st))
+                    for t in others:
+                        src = copy.deepcopy(home)
+                        for x in ast.walk(src):
+                            if isinstance(x, (ast.Name, ast.Attribute)):
+                                x.ctx = ast.Load()
+                        out.append(ast.copy_location(ast.Assign([t], src), st))
+                    continue
+            out.append(st)
+        return out
+    fn.body = conv(fn.body)
+    if k[0]:
+        ast.fix_missing_locations(fn)
+    return k[0]
 
 
 def module_namedtuples(mod: ast.Module) -> Dict[str, tuple]:
@@ -349,18 +1011,25 @@ class Normaliser:
             elif L not in self.caller_names and L not in keep:
                 keepname.add(L)                    # no clash with anything in the caller
         out: List[ast.stmt] = []
+        direct = {}
         for p in params:
             if p in same_arg and p in keepname:
                 continue
             v = bound.get(p, defaults.get(p))
             if v is None:
                 return None
+            if isinstance(v, ast.Name) and p not in assigned and p in bound and v.id not in keep and v.id not in keep.values():
+                # the parameter is never rebound by the helper and the helper cannot rebind the caller's variable: the parameter IS that variable
+                direct[p] = v.id
+                continue
             out.append(ast.Assign([ast.Name(p if p in keepname else pre + p, ast.Store())], copy.deepcopy(v), lineno=call.lineno))
         for s in body:
             for n in ast.walk(s):
                 if isinstance(n, ast.Name):
                     if n.id in keep:
                         n.id = keep[n.id]
+                    elif n.id in direct:
+                        n.id = direct[n.id]
                     elif n.id in local and n.id not in keepname:
                         n.id = pre + n.id
         self.caller_names |= {(L if L in keepname else pre + L) for L in local}
@@ -433,6 +1102,8 @@ class Normaliser:
             return None
         v = call.func.value
         if isinstance(v, ast.Name):
+            if any(x is h or (isinstance(x, ast.FunctionDef) and x.name == h.name and x.lineno == h.lineno) for m_ in SIBLINGS.values() for x in m_.body):
+                return None                         # `common.helper(...)`: a plain function of a sibling module imported as a module
             return v.id
         if isinstance(v, ast.Call) and isinstance(v.func, ast.Name) and v.func.id == "super":
             return "cls" if "classmethod" in deco else "self"
@@ -499,12 +1170,15 @@ class Normaliser:
             out.append(ast.Assign([ast.Name(pre + p_, ast.Store())], copy.deepcopy(v), lineno=loop.lineno))
         body = copy.deepcopy(hb)
 
+        free = {L for L in local if L not in params and L not in self.caller_names} if getattr(self, "keep_unclashing", False) else set()
+        self.caller_names |= free
+
         def rename(node):
             for n in ast.walk(node):
                 if isinstance(n, ast.Name):
                     if n.id in keep:
                         n.id = keep[n.id]
-                    elif n.id in local and n.id not in same:
+                    elif n.id in local and n.id not in same and n.id not in free:
                         n.id = pre + n.id
 
         def subst(block):
@@ -894,17 +1568,20 @@ class Normaliser:
 
     # ---------------------------------------------------------------- BETA (a local bound once to a lambda, called)
     @staticmethod
-    def beta(body: List[ast.stmt]) -> List[ast.stmt]:
+    def beta(body: List[ast.stmt], params=()) -> List[ast.stmt]:
         """`f = lambda a: E` bound exactly once, every use a call `f(x)` with simple arguments, nothing that E captures is rebound:
         the calls are replaced by E[a := x] and the binding is dropped (how a parameterised helper's callable arguments look after INLINE)"""
         mod = ast.Module(body=body, type_ignores=[])
-        stores: Dict[str, int] = {}
+        stores: Dict[str, int] = {p_: 1 for p_ in params}
         lam: Dict[str, ast.Lambda] = {}
         for n in ast.walk(mod):
             if isinstance(n, ast.Name) and isinstance(n.ctx, (ast.Store, ast.Del)):
                 stores[n.id] = stores.get(n.id, 0) + 1
             elif isinstance(n, ast.arg):
                 stores[n.arg] = stores.get(n.arg, 0) + 1
+            elif isinstance(n, (ast.Global, ast.Nonlocal)):
+                for g_ in n.names:
+                    stores[g_] = stores.get(g_, 0) + 2
         for n in ast.walk(mod):
             if isinstance(n, ast.Assign) and len(n.targets) == 1 and isinstance(n.targets[0], ast.Name) and isinstance(n.value, ast.Lambda) \
                     and stores.get(n.targets[0].id) == 1:
@@ -916,11 +1593,38 @@ class Normaliser:
                 if any(stores.get(c_, 0) > 1 for c_ in caps):
                     continue
                 lam[n.targets[0].id] = n.value
-        if not lam:
-            return body
 
         def simple(e):
             return all(isinstance(x, (ast.Name, ast.Constant, ast.Attribute, ast.Tuple, ast.expr_context)) for x in ast.walk(e))
+
+        def stable(e):
+            # side-effect free and built from names that are bound at most once in this body (parameters count as one binding)
+            return simple(e) and all(stores.get(x.id, 0) <= 1 for x in ast.walk(e) if isinstance(x, ast.Name))
+
+        def plain_lambda(L):
+            a = L.args
+            if a.vararg or a.kwarg or a.kwonlyargs or a.defaults or a.posonlyargs:
+                return False
+            own = {x.arg for x in a.args}
+            return all(stores.get(x.id, 0) <= 1 for x in ast.walk(L.body) if isinstance(x, ast.Name) and x.id not in own)
+        part: Dict[str, ast.Call] = {}          # f = partial(g, *simple, **simple)
+        choice: Dict[str, ast.IfExp] = {}       # f = A if c else B   (A, B names of callables or plain lambdas; c stable)
+        for n in ast.walk(mod):
+            if not (isinstance(n, ast.Assign) and len(n.targets) == 1 and isinstance(n.targets[0], ast.Name) and stores.get(n.targets[0].id) == 1):
+                continue
+            v = n.value
+            if isinstance(v, ast.Call) and ast.unparse(v.func) in ("partial", "functools.partial") and v.args and isinstance(v.args[0], (ast.Name, ast.Attribute)) \
+                    and not any(isinstance(a_, ast.Starred) for a_ in v.args) and all(k.arg is not None for k in v.keywords) \
+                    and all(stable(a_) for a_ in v.args) and all(stable(k.value) for k in v.keywords):
+                part[n.targets[0].id] = v
+            elif isinstance(v, ast.IfExp) and stable(v.test) and all((isinstance(x, ast.Name) and stores.get(x.id, 0) <= 1) or (isinstance(x, ast.Lambda) and plain_lambda(x))
+                                                                     for x in (v.body, v.orelse)):
+                choice[n.targets[0].id] = v
+        if not lam and not part and not choice:
+            return body
+        lam_only = dict(lam)
+        for k in list(part) + list(choice):
+            lam.setdefault(k, None)
         uses = {k: 0 for k in lam}
         reduced = {k: 0 for k in lam}
         for n in ast.walk(mod):
@@ -930,7 +1634,37 @@ class Normaliser:
         class B(ast.NodeTransformer):
             def visit_Call(self, c):
                 self.generic_visit(c)
-                if isinstance(c.func, ast.Name) and c.func.id in lam and not c.keywords and all(simple(a_) and not isinstance(a_, ast.Starred) for a_ in c.args):
+                if isinstance(c.func, ast.Name) and c.func.id in part and not any(isinstance(a_, ast.Starred) for a_ in c.args) \
+                        and all(k.arg is not None for k in c.keywords):
+                    P = part[c.func.id]
+                    given = {k.arg for k in c.keywords}
+                    reduced[c.func.id] += 1
+                    return ast.copy_location(ast.Call(copy.deepcopy(P.args[0]), [copy.deepcopy(a_) for a_ in P.args[1:]] + list(c.args),
+                                                      [copy.deepcopy(k) for k in P.keywords if k.arg not in given] + list(c.keywords)), c)
+                if isinstance(c.func, ast.Name) and c.func.id in choice and not c.keywords and all(simple(a_) and not isinstance(a_, ast.Starred) for a_ in c.args):
+                    I = choice[c.func.id]
+
+                    def app(f_):
+                        if isinstance(f_, ast.Lambda):
+                            ps_ = [x.arg for x in f_.args.args]
+                            if len(ps_) != len(c.args):
+                                return None
+                            sub_ = dict(zip(ps_, c.args))
+
+                            class S_(ast.NodeTransformer):
+                                def visit_Name(self, n):
+                                    return copy.deepcopy(sub_[n.id]) if isinstance(n.ctx, ast.Load) and n.id in sub_ else n
+
+                                def visit_Lambda(self, n):
+                                    return n
+                            return S_().visit(copy.deepcopy(f_.body))
+                        return ast.Call(copy.deepcopy(f_), [copy.deepcopy(a_) for a_ in c.args], [])
+                    a1, a2 = app(I.body), app(I.orelse)
+                    if a1 is None or a2 is None:
+                        return c
+                    reduced[c.func.id] += 1
+                    return ast.copy_location(ast.IfExp(copy.deepcopy(I.test), a1, a2), c)
+                if isinstance(c.func, ast.Name) and lam.get(c.func.id) is not None and not c.keywords and all(simple(a_) and not isinstance(a_, ast.Starred) for a_ in c.args):
                     L = lam[c.func.id]
                     ps = [x.arg for x in L.args.args]
                     if len(ps) != len(c.args):
@@ -953,7 +1687,7 @@ class Normaliser:
             out = []
             for st in stmts:
                 if isinstance(st, ast.Assign) and len(st.targets) == 1 and isinstance(st.targets[0], ast.Name) and st.targets[0].id in drop \
-                        and isinstance(st.value, ast.Lambda):
+                        and (isinstance(st.value, ast.Lambda) or st.value is part.get(st.targets[0].id) or st.value is choice.get(st.targets[0].id)):
                     continue
                 for fld in ("body", "orelse", "finalbody"):
                     v = getattr(st, fld, None)
@@ -1090,8 +1824,13 @@ class Normaliser:
         out = copy.deepcopy(fn)
         self.caller_names = {n.id for n in ast.walk(fn) if isinstance(n, ast.Name)} | {a.arg for a in ast.walk(fn) if isinstance(a, ast.arg)}
         body = [s for s in out.body if not (isinstance(s, ast.Expr) and isinstance(s.value, ast.Constant) and isinstance(s.value.value, str))]
-        body = unproduct(body)
+        body = unzip_map(unproduct(body))
+        saved_res = self.resolve_call
+        self.resolve_call, local_defs = with_local_defs(out, self.resolve_call)
         body = self.inline_block(body)
+        self.resolve_call = saved_res
+        body = tuple_scalarise(drop_unused_defs(body, local_defs))
+        body = copy_propagate(split_assign(body))
         body = self.beta(body)
         body = self.attr_forward(body)
         if self.namedtuples:
@@ -1108,19 +1847,38 @@ class Normaliser:
 
 def inline_only(fn: ast.FunctionDef, resolve_call) -> ast.FunctionDef:
     """INLINE + FUSE only (for analyses that do their own control-flow reasoning)"""
-    nz = Normaliser(resolve_call)
     out = copy.deepcopy(fn)
+    resolve_call, local_defs = with_local_defs(out, resolve_call)
+    nz = Normaliser(resolve_call)
     nz.caller_names = {n.id for n in ast.walk(fn) if isinstance(n, ast.Name)} | {a.arg for a in ast.walk(fn) if isinstance(a, ast.arg)}
     out.body = nz.inline_block([s for s in out.body if not (isinstance(s, ast.Expr) and isinstance(s.value, ast.Constant) and isinstance(s.value.value, str))])
+    out.body = tuple_scalarise(drop_unused_defs(out.body, local_defs))
     ast.fix_missing_locations(out)
     out._inlined = list(nz.inlined)
     return out
 
 
+SIBLINGS: Dict[str, ast.Module] = {}        # module name -> tree of the repo's other modules (filled by core.Ctx.parse): targets of `from formak.X import f`
+
+
 def class_resolver(mod: ast.Module, cls: Optional[ast.ClassDef] = None, exclude=(), module_funcs=True):
-    """resolve self.m(...) / cls.m(...) in `cls` (and module-level base classes) and f(...) to module-level functions"""
+    """resolve self.m(...) / cls.m(...) in `cls` (and module-level base classes) and f(...) to module-level functions (its own, or one imported by
+    name from a sibling module of the package; `common.f(...)` for a sibling imported as a module)"""
     classes = {c.name: c for c in mod.body if isinstance(c, ast.ClassDef)}
     funcs = {f.name: f for f in mod.body if isinstance(f, ast.FunctionDef)}
+    mod_alias = {}
+    for n in mod.body:
+        if isinstance(n, ast.ImportFrom) and n.module and n.module.split(".")[0] == "formak":
+            parts = n.module.split(".")
+            for a in n.names:
+                local = a.asname or a.name
+                if len(parts) == 1:
+                    if a.name in SIBLINGS:
+                        mod_alias[local] = a.name
+                elif parts[-1] in SIBLINGS:
+                    for f in SIBLINGS[parts[-1]].body:
+                        if isinstance(f, ast.FunctionDef) and f.name == a.name and local not in funcs:
+                            funcs[local] = f
 
     def methods(c, seen=()):
         out = {}
@@ -1142,7 +1900,7 @@ def class_resolver(mod: ast.Module, cls: Optional[ast.ClassDef] = None, exclude=
 
     def resolve(call: ast.Call):
         f = call.func
-        if isinstance(f, ast.Attribute) and isinstance(f.value, ast.Name) and f.value.id not in ("self", "cls"):
+        if isinstance(f, ast.Attribute) and isinstance(f.value, ast.Name) and f.value.id not in ("self", "cls") and f.value.id not in mod_alias:
             # `ClassName.method(...)` (class / static method of a module-level class) or `obj.method()` where obj was built by `ClassName(...)`
             cn = f.value.id if f.value.id in classes else resolve.local_types.get(f.value.id)
             if cn in classes and f.attr not in exclude and (cls is None or cn != cls.name):
@@ -1160,6 +1918,16 @@ def class_resolver(mod: ast.Module, cls: Optional[ast.ClassDef] = None, exclude=
             return None if f.attr in exclude else base_ms.get(f.attr)
         if isinstance(f, ast.Attribute) and isinstance(f.value, ast.Name) and f.value.id in ("self", "cls"):
             return None if f.attr in exclude else ms.get(f.attr)
+        if isinstance(f, ast.Attribute) and isinstance(f.value, ast.Name) and f.value.id in mod_alias and module_funcs and f.attr not in exclude \
+                and f.value.id not in classes:
+            h = next((x for x in SIBLINGS[mod_alias[f.value.id]].body if isinstance(x, ast.FunctionDef) and x.name == f.attr), None)
+            if h is not None and module_funcs == "small":
+                body = [s_ for s_ in h.body if not (isinstance(s_, ast.Expr) and isinstance(s_.value, ast.Constant))]
+                if not (len(body) == 1 and isinstance(body[0], ast.Return)):
+                    return None
+            if h is not None and h.name not in ("named_vector", "named_covariance", "model_validation"):
+                return h
+            return None
         if isinstance(f, ast.Name) and module_funcs:
             h = None if f.id in exclude else funcs.get(f.id)
             if h is not None and module_funcs == "small":
@@ -1494,6 +2262,85 @@ def flatten_else(stmts: List[ast.stmt]) -> List[ast.stmt]:
     return out
 
 
+def unwalrus(stmts: List[ast.stmt]) -> List[ast.stmt]:
+    """UNWALRUS: `if (x := E) ...:` / `y = f((x := E))` where the assignment expression is evaluated unconditionally and before any call of the
+    statement's header -> `x = E` in front, `x` in its place (recursively; while-tests, comprehensions and short-circuited operands are left)"""
+    out: List[ast.stmt] = []
+    for s in stmts:
+        for fld in ("body", "orelse", "finalbody"):
+            v = getattr(s, fld, None)
+            if isinstance(v, list) and v and all(isinstance(x, ast.stmt) for x in v) and not isinstance(s, (ast.FunctionDef, ast.AsyncFunctionDef, ast.ClassDef)):
+                setattr(s, fld, unwalrus(v))
+        if isinstance(s, ast.Try):
+            for h in s.handlers:
+                h.body = unwalrus(h.body)
+        while True:
+            hdrs = _header_exprs(s) if not isinstance(s, ast.For) else [s.iter]
+            hit = None
+            for h in hdrs[:1]:
+                hit = _first_walrus(h)
+            if hit is None:
+                break
+            out.append(ast.copy_location(ast.Assign([ast.Name(hit.target.id, ast.Store())], hit.value), s))
+
+            class R(ast.NodeTransformer):
+                def visit_NamedExpr(self_, n):
+                    return ast.copy_location(ast.Name(hit.target.id, ast.Load()), n) if n is hit else self_.generic_visit(n)
+            for fld, v in list(ast.iter_fields(s)):
+                if any(v is h for h in hdrs[:1]):
+                    setattr(s, fld, R().visit(v))
+        out.append(s)
+    return out
+
+
+def _first_walrus(expr) -> Optional[ast.NamedExpr]:
+    """the NamedExpr of `expr` that is evaluated first and unconditionally, with no call completed before it; else None"""
+    found = []
+    blocked = [False]
+
+    def walk(n):
+        if found or blocked[0]:
+            return
+        if isinstance(n, ast.NamedExpr):
+            if any(isinstance(x, ast.NamedExpr) for x in ast.walk(n.value)):
+                walk(n.value)
+                return
+            found.append(n)
+            return
+        if isinstance(n, (ast.Lambda, ast.ListComp, ast.SetComp, ast.DictComp, ast.GeneratorExp)):
+            if any(isinstance(x, ast.NamedExpr) for x in ast.walk(n)):
+                blocked[0] = True
+            return
+        if isinstance(n, (ast.BoolOp, ast.IfExp)):
+            first = n.values[0] if isinstance(n, ast.BoolOp) else n.test
+            walk(first)
+            if not found and any(isinstance(x, ast.NamedExpr) for x in ast.walk(n)):
+                blocked[0] = True
+            return
+        if isinstance(n, ast.Call):
+            for ch in [n.func] + list(n.args) + [k.value for k in n.keywords]:
+                walk(ch)
+                if found or blocked[0]:
+                    return
+            if any(isinstance(x, ast.NamedExpr) for x in ast.walk(n)):
+                blocked[0] = True
+            else:
+                blocked[0] = blocked[0]
+            # a call completed before a later walrus: stop (evaluation order would change)
+            blocked[0] = True
+            return
+        for ch in ast.iter_child_nodes(n):
+            if isinstance(ch, ast.expr_context):
+                continue
+            walk(ch)
+            if found or blocked[0]:
+                return
+    if not any(isinstance(x, ast.NamedExpr) for x in ast.walk(expr)):
+        return None
+    walk(expr)
+    return found[0] if found else None
+
+
 def guard_raise(stmts: List[ast.stmt], in_loop=False, is_func_body=False) -> List[ast.stmt]:
     """GUARD-RAISE: `if c: return` (bare; or `continue` in a loop body) followed by statements that end in a raise and contain no other exit
     == `if not c: <those statements>`: the refusal is spelled as the guarded arm (recursively)"""
@@ -1636,6 +2483,9 @@ class _SortKey(ast.NodeTransformer):
 def canon_module(tree: ast.Module) -> ast.Module:
     """FORWARD + CMPDIR over every function of the module (in place); records the counts on the tree"""
     nf = 0
+    for n in ast.walk(tree):
+        if isinstance(n, (ast.FunctionDef, ast.AsyncFunctionDef)):
+            n.body = unwalrus(n.body)
     _Tests().visit(tree)
     for n in ast.walk(tree):
         if isinstance(n, (ast.FunctionDef, ast.AsyncFunctionDef)):
@@ -1646,9 +2496,30 @@ def canon_module(tree: ast.Module) -> ast.Module:
     pol = _Tests()
     pol.polar = True
     pol.visit(tree)
+    for n in tree.body:
+        if isinstance(n, (ast.FunctionDef, ast.AsyncFunctionDef)):
+            unchain_assign(n)                        # CHAIN
+        elif isinstance(n, ast.ClassDef):
+            for m_ in n.body:
+                if isinstance(m_, (ast.FunctionDef, ast.AsyncFunctionDef)):
+                    unchain_assign(m_)
+    for n in ast.walk(tree):
+        if isinstance(n, (ast.FunctionDef, ast.AsyncFunctionDef)):
+            reduce_loops(n)                          # REDUCE: a functools fold written as the loop it abbreviates
+    for n in tree.body:
+        for m_ in ([n] if isinstance(n, ast.FunctionDef) else (n.body if isinstance(n, ast.ClassDef) else [])):
+            if isinstance(m_, ast.FunctionDef):
+                splice_local_generators(m_)          # CHAIN-LIST / LOCAL-GEN / GENEXP-LOOP
+                resolve_unset(m_)
+    for n in ast.walk(tree):
+        if isinstance(n, (ast.FunctionDef, ast.AsyncFunctionDef)):
+            n.body = Normaliser.beta(n.body, [a_.arg for a_ in ast.walk(n.args) if isinstance(a_, ast.arg)])         # CALLABLE: partial(...) / `A if c else B` / lambda bound once and only called
     for n in ast.walk(tree):
         if isinstance(n, (ast.FunctionDef, ast.AsyncFunctionDef)):
             nf += forward_temps(n)
+    for n in ast.walk(tree):
+        if isinstance(n, (ast.FunctionDef, ast.AsyncFunctionDef)):
+            extend_loops(n)                          # APPEND-LOOP
     nk = canon_calls(tree)
     _CmpDir().visit(tree)
     # module-level names that are "the .name of an element" (bound once, never rebound in a function)
